@@ -140,7 +140,7 @@ Do(a) ==
        [] a.op = "wok"    -> DoWok(a)
        [] a.op = "wfault" -> DoWfault(a)
        [] a.op = "rok"    -> DoRok(a)
-       [] a.op = "rfault" -> a.k \in {"eof", "err", "timeout", "herr", "dl", "temp"} /\ DoRend(a, "rfault")
+       [] a.op = "rfault" -> DoRend(a, "rfault")    \* a.k names the error (any kind, plain or wrapped)
        [] a.op = "panic"  -> DoRend(a, "panic")
        [] OTHER -> FALSE
 
